@@ -508,6 +508,8 @@ func c16Run() {
 	c16Exhaustion(u, idx)
 	c16ForeignInputs(u, idx)
 	c16ForeignInputsRenter(u, idx)
+	c16HostSpendsRenterOutput(u, idx)
+	c16RenterSpendsHostOutput(u, idx)
 	run.Extra[fmt.Sprintf("fault_runs(trusting=%v)", c16Trusting)] = len(jobs)
 	run.Extra[fmt.Sprintf("runs_succeeding(trusting=%v)", c16Trusting)] = okRuns
 	run.Extra[fmt.Sprintf("runs_failing(trusting=%v)", c16Trusting)] = failRuns
@@ -627,6 +629,159 @@ func c16ForeignInputs(u *univ.Universe, idx map[string]int) {
 		}
 		r.close()
 	}
+}
+
+// c16HostSpendsRenterOutput: a host that completes the formation by the book, except that the input it lists as
+// its own funding is another output of the renter's wallet. A v2 input signature covers the whole transaction,
+// not one input, so the satisfied policy the renter sends for its own input also satisfies that one. If the
+// client reports success, the confirmed transaction takes the host's share (and the host's "change") out of the
+// renter's wallet: not the agreed funding.
+func c16HostSpendsRenterOutput(u *univ.Universe, idx map[string]int) {
+	saved := c16Trusting
+	c16Trusting = false
+	defer func() { c16Trusting = saved }()
+	r := newC16Rig(u, idx["m3"], idx["m3"], nil)
+	defer r.close()
+	cs := r.renter.n.CM.TipState()
+	hostAddr := r.w.Settings.WalletAddress
+	renterAddr := r.u.As[1].Addr
+	var txn types.V2Transaction
+	var stolen types.SiacoinElement
+	h := &firstAnswerHost{hostKey: r.w.HostKey, request: &proto4.RPCFormContractRequest{}, second: &proto4.RPCFormContractSecondResponse{}, accepted: make(chan bool, 1)}
+	h.answer = func() proto4.Object {
+		req := h.request.(*proto4.RPCFormContractRequest)
+		fc, _ := proto4.NewContract(req.Prices, req.Contract, r.w.HostKey.PublicKey(), hostAddr)
+		txn = types.V2Transaction{MinerFee: req.MinerFee, FileContracts: []types.V2FileContract{fc}}
+		used := map[types.SiacoinOutputID]bool{}
+		var renterSum types.Currency
+		for _, sce := range req.RenterInputs {
+			used[sce.ID] = true
+			renterSum = renterSum.Add(sce.SiacoinOutput.Value)
+			txn.SiacoinInputs = append(txn.SiacoinInputs, types.V2SiacoinInput{Parent: sce.Copy()})
+		}
+		renterCost, hostCost := proto4.ContractCost(cs, fc, req.MinerFee)
+		if !renterSum.Equals(renterCost) {
+			txn.SiacoinOutputs = append(txn.SiacoinOutputs, types.SiacoinOutput{Address: req.Contract.RenterAddress, Value: renterSum.Sub(renterCost)})
+		}
+		// another matured output of the renter's address (public chain data)
+		for _, sce := range univ.OwnedSC(r.u.Nodes[idx["m3"]].L, renterAddr) {
+			if !used[sce.ID] && sce.SiacoinOutput.Value.Cmp(hostCost) >= 0 {
+				stolen = sce.Copy()
+				break
+			}
+		}
+		hostInput := types.V2SiacoinInput{Parent: stolen.Copy(), SatisfiedPolicy: types.SatisfiedPolicy{Policy: types.AnyoneCanSpend()}}
+		txn.SiacoinInputs = append(txn.SiacoinInputs, hostInput)
+		if stolen.SiacoinOutput.Value.Cmp(hostCost) > 0 {
+			txn.SiacoinOutputs = append(txn.SiacoinOutputs, types.SiacoinOutput{Address: hostAddr, Value: stolen.SiacoinOutput.Value.Sub(hostCost)})
+		}
+		return &proto4.RPCFormContractResponse{HostInputs: []types.V2SiacoinInput{hostInput}}
+	}
+	h.final = func() proto4.Object {
+		req := h.request.(*proto4.RPCFormContractRequest)
+		sigs := h.second.(*proto4.RPCFormContractSecondResponse)
+		for i := range sigs.RenterSatisfiedPolicies {
+			txn.SiacoinInputs[i].SatisfiedPolicy = sigs.RenterSatisfiedPolicies[i]
+		}
+		if len(sigs.RenterSatisfiedPolicies) > 0 {
+			txn.SiacoinInputs[len(txn.SiacoinInputs)-1].SatisfiedPolicy = sigs.RenterSatisfiedPolicies[0]
+		}
+		txn.FileContracts[0].RenterSignature = sigs.RenterContractSignature
+		txn.FileContracts[0].HostSignature = r.w.HostKey.SignHash(cs.ContractSigHash(txn.FileContracts[0]))
+		return &proto4.RPCFormContractThirdResponse{Basis: req.Basis, TransactionSet: append(append([]types.V2Transaction(nil), req.RenterParents...), txn)}
+	}
+	cctx, cancel := context.WithTimeout(context.Background(), 5*time.Second)
+	res, err := rhp.RPCFormContract(cctx, h, r.renter.n.CM, r.signer, cs, r.w.Prices, r.w.HostKey.PublicKey(), hostAddr, proto4.RPCFormContractParams{
+		RenterPublicKey: r.u.As[1].Key.PublicKey(), RenterAddress: renterAddr,
+		Allowance: types.Siacoins(25), Collateral: types.Siacoins(20), ProofHeight: cs.Index.Height + 50,
+	})
+	cancel()
+	select {
+	case <-h.accepted:
+	case <-time.After(6 * time.Second):
+	}
+	run.Add(1, 1, 1, 1)
+	run.Distinct("host-spends-renter-output", err == nil)
+	if err != nil {
+		return // refused: fine
+	}
+	// the call reported success. Which outputs of the renter's wallet does the transaction spend that the
+	// wallet did not select for this attempt?
+	locked := r.renter.w.VerifLocked()
+	last := res.FormationSet.Transactions[len(res.FormationSet.Transactions)-1]
+	fresh := node.New(r.u)
+	fresh.CM.AddBlocks(r.u.Blocks(r.u.PathTo(idx["m3"])))
+	_, perr := fresh.CM.AddV2PoolTransactions(res.FormationSet.Basis, res.FormationSet.Transactions)
+	for _, in := range last.SiacoinInputs {
+		if _, ok := locked[in.Parent.ID]; in.Parent.SiacoinOutput.Address == renterAddr && !ok {
+			run.Violate("c16:host-funded-with-renter-output", fmt.Sprintf("formation: the host listed output %v (%v) of the renter's own wallet as its funding and re-used the renter's input signature for it; RPCFormContract reported success with Cost=%v, and the returned set (pool verdict: %v) spends that output, which the renter's wallet never selected", in.Parent.ID, in.Parent.SiacoinOutput.Value, res.Cost, perr), nil)
+			return
+		}
+	}
+}
+
+// c16RenterSpendsHostOutput: the mirror image on the server. A renter (speaking the protocol by hand) lists
+// an output of the host's wallet as its only input. The host signs its own inputs before it sends them, and
+// that signature covers the whole transaction: the renter returns the host's satisfied policy as its own. If
+// the host completes the formation, the renter's share is paid out of the host's wallet.
+func c16RenterSpendsHostOutput(u *univ.Universe, idx map[string]int) {
+	saved := c16Trusting
+	c16Trusting = false
+	defer func() { c16Trusting = saved }()
+	r := newC16Rig(u, idx["m3"], idx["m3"], nil)
+	defer r.close()
+	cs := r.host.n.CM.TipState()
+	hostAddr := r.w.Settings.WalletAddress
+	params := proto4.RPCFormContractParams{RenterPublicKey: r.u.As[1].Key.PublicKey(), RenterAddress: r.u.As[1].Addr,
+		Allowance: types.Siacoins(25), Collateral: types.Siacoins(20), ProofHeight: cs.Index.Height + 50}
+	fc, _ := proto4.NewContract(r.w.Prices, params, r.w.HostKey.PublicKey(), hostAddr)
+	fee := types.Siacoins(1)
+	renterCost, _ := proto4.ContractCost(cs, fc, fee)
+	// the smallest output of the host's wallet that covers the renter's share (the host funds with its largest)
+	var victim types.SiacoinElement
+	for _, sce := range univ.OwnedSC(r.u.Nodes[idx["m3"]].L, hostAddr) {
+		if sce.SiacoinOutput.Value.Cmp(renterCost) >= 0 {
+			victim = sce.Copy() // sorted by value descending: the last match is the smallest
+		}
+	}
+	if victim.ID == (types.SiacoinOutputID{}) {
+		run.Violate("c16:mirror-setup", "the host's wallet has no output covering the renter's share", nil)
+		return
+	}
+	ctx, cancel := context.WithTimeout(context.Background(), 5*time.Second)
+	defer cancel()
+	st, err := r.w.T.DialStream(ctx)
+	if err != nil {
+		run.Violate("c16:mirror-setup", err.Error(), nil)
+		return
+	}
+	defer st.Close()
+	st.SetDeadline(time.Now().Add(5 * time.Second))
+	run.Add(1, 1, 1, 1)
+	req := proto4.RPCFormContractRequest{Prices: r.w.Prices, Contract: params, MinerFee: fee, Basis: cs.Index, RenterInputs: []types.SiacoinElement{victim.Copy()}}
+	if err := proto4.WriteRequest(st, proto4.RPCFormContractID, &req); err != nil {
+		return
+	}
+	var hostInputs proto4.RPCFormContractResponse
+	if err := proto4.ReadResponse(st, &hostInputs); err != nil || len(hostInputs.HostInputs) == 0 {
+		run.Distinct("renter-spends-host-output", "refused-at-request")
+		return // refused: fine
+	}
+	second := proto4.RPCFormContractSecondResponse{
+		RenterContractSignature: r.u.As[1].Key.SignHash(cs.ContractSigHash(fc)),
+		RenterSatisfiedPolicies: []types.SatisfiedPolicy{hostInputs.HostInputs[0].SatisfiedPolicy},
+	}
+	if err := proto4.WriteResponse(st, &second); err != nil {
+		return
+	}
+	var third proto4.RPCFormContractThirdResponse
+	if err := proto4.ReadResponse(st, &third); err != nil {
+		run.Distinct("renter-spends-host-output", "refused-at-signatures")
+		return // refused: fine
+	}
+	r.w.T.WaitIdle()
+	run.Distinct("renter-spends-host-output", "completed")
+	run.Violate("c16:renter-funded-with-host-output", fmt.Sprintf("formation: a renter listed output %v (%v) of the host's own wallet as its only input and returned the host's input signature as its own; the host completed the formation (set of %d transactions returned and broadcast): the renter's share of %v is paid by the host's wallet", victim.ID, victim.SiacoinOutput.Value, len(third.TransactionSet), renterCost), nil)
 }
 
 // c16ForeignInputsRenter: the mirror case. A lying host lists, among *its* inputs, an output of the renter's
